@@ -51,7 +51,7 @@ def _expand(pattern, grid):
     return out
 
 
-def gen(rng, tier, idx):
+def gen(rng, tier, idx, rich=False):
     grid = [rng.choice([1, 2, 2, 3, 3, 4]), rng.choice([1, 2, 2, 3, 3, 4])]
     if rng.random() < 0.3:
         grid[1] = grid[0]                         # equal extents: ambiguous communicator choice
@@ -59,6 +59,8 @@ def gen(rng, tier, idx):
         grid[rng.randrange(2)] -= 1
     fr = rng.random()
     family = 'driver' if fr < 0.5 else ('two2d' if fr < 0.7 else 'random')
+    if rich:
+        family = 'two2d'          # many layouts in several groups: equally short alternative routes
     if family == 'two2d':
         # several groups distributed over both process directions: the constructor has to work out which
         # communicator carries which dimension in each group (by size; by a heuristic when the extents are equal)
@@ -69,9 +71,9 @@ def gen(rng, tier, idx):
         base = list(rng.choice(perms))
         names = iter(cm.LAYOUT_NAMES)
         groups, kinds = [], []
-        for gi in range(rng.choice([2, 2, 3])):
+        for gi in range(rng.choice([3, 3, 4] if rich else [2, 2, 3])):
             g = {}
-            for li in range(rng.choice([1, 2, 2, 3])):
+            for li in range(rng.choice([2, 3, 3] if rich else [1, 2, 2, 3])):
                 r2 = rng.random()
                 if r2 < 0.4:
                     o = list(base)                          # same ordering as a layout of another group
